@@ -23,7 +23,7 @@ SHIM_KEEP = []
 METHOD_SHIMS = {}       # (type, name) -> handler(self, *args, **kw)
 STUBS = {}              # name -> handler, installed by harnesses (float, strptime, ...)
 
-SAFE_MODULE_PREFIXES = ('hszinc', 'functools', 'collections', '_collections_abc', 'copy', 'abc', 'six', 'vf.', '__main__', 'operator')
+SAFE_MODULE_PREFIXES = ('hszinc', 'functools', 'collections', '_collections_abc', 'copy', 'abc', 'six', 'vf.', '__main__', 'operator', 'symref_')
 
 
 def register(fn, handler):
@@ -159,6 +159,38 @@ for _n in ('join', 'replace', 'startswith', 'endswith', 'split'):
     METHOD_SHIMS[(str, _n)] = _str_method(_n)
 
 
+def sym_dict_lookup(d, key, default, have_default):
+    """dict lookup with a symbolic string key: decided key by key (forking), never hashed"""
+    p = to_plain(key)
+    if p is not None:
+        key = p
+    else:
+        for k in list(d.keys()):
+            if builtins.isinstance(k, (str, SymStr)) and bool(key == k):
+                return d[k]
+        if have_default:
+            return default
+        raise KeyError(key)
+    if have_default:
+        return d.get(key, default)
+    return d[key]
+
+
+def _dict_get(self, key, default=None):
+    if builtins.isinstance(key, SymStr):
+        return sym_dict_lookup(self, key, default, True)
+    return dict.get(self, key, default)
+
+
+METHOD_SHIMS[(dict, 'get')] = _dict_get
+
+
+def sx_getitem(obj, key):
+    if builtins.isinstance(key, SymStr) and builtins.isinstance(obj, dict):
+        return sym_dict_lookup(obj, key, None, False)
+    return obj[key]
+
+
 def _str_eq_family(self, *a, **k):
     raise Unsupported('str method on symbolic argument')
 
@@ -271,6 +303,12 @@ class Tx(ast.NodeTransformer):
             return node
         return ast.copy_location(ast.Call(ast.Name('_sx_call_', ast.Load()), [node.func] + node.args, node.keywords), node)
 
+    def visit_Subscript(self, node):
+        self.generic_visit(node)
+        if isinstance(node.ctx, ast.Load) and not isinstance(node.slice, (ast.Slice, ast.Tuple)):
+            return ast.copy_location(ast.Call(ast.Name('_sx_getitem_', ast.Load()), [node.value, node.slice], []), node)
+        return node
+
     def visit_ClassDef(self, node):
         self.generic_visit(node)
         for i, b in enumerate(node.bases):
@@ -283,7 +321,7 @@ def _in(a, b):
     return sstr.sx_in(a, b)
 
 
-INJECT = {'_sx_mod_': sstr.sx_mod, '_sx_in_': _in, '_sx_call_': sx_call, '_sx_strbase_': SymStr}
+INJECT = {'_sx_mod_': sstr.sx_mod, '_sx_in_': _in, '_sx_call_': sx_call, '_sx_strbase_': SymStr, '_sx_getitem_': sx_getitem}
 
 
 class _Loader(importlib.abc.Loader):
@@ -318,6 +356,20 @@ class _Finder(importlib.abc.MetaPathFinder):
         if os.path.exists(mod):
             return importlib.machinery.ModuleSpec(name, _Loader(mod, False), origin=mod)
         return None
+
+
+def load_instrumented(path, modname):
+    """load one of our own pure-python reference modules through the same instrumentation, so that it can run
+    on symbolic text (its `in`, ord(), chr() ... are rerouted through the shims)"""
+    src = open(path).read()
+    tree = Tx().visit(ast.parse(src, path))
+    ast.fix_missing_locations(tree)
+    mod = types.ModuleType(modname)
+    mod.__file__ = path
+    mod.__dict__.update(INJECT)
+    sys.modules[modname] = mod
+    exec(compile(tree, path, 'exec'), mod.__dict__)
+    return mod
 
 
 def install(repo, block_pint=True):
